@@ -22,6 +22,7 @@ func main() {
 		{"arith", runArith, "ArithTables.lean"},
 		{"wire", runWire, "WireSchema.lean"},
 		{"syntax", runSyntax, "SyntaxFacts.lean"},
+		{"loaders", runLoaders, "LoaderFacts.lean"},
 	}
 	for _, s := range steps {
 		p := filepath.Join(out, s.file)
